@@ -1,6 +1,7 @@
 package main
 
-// memfs_consts.go — behaviour switch memfs_refuses_below_file for coq/Model/MemFs.v, read from
+// memfs_consts.go — behaviour switches memfs_refuses_below_file and
+// memfs_rename_missing_source_enotdir (at the end of the file) for coq/Model/MemFs.v, read from
 // the CURRENT memmap.go: do Create, Mkdir, Rename and the creating path of OpenFile look up the
 // nearest existing ancestor of the name first and answer ENOTDIR when it is a regular file?
 // (Before that repair registerWithParent turned the regular file into a directory.)
@@ -12,7 +13,7 @@ import (
 	"strings"
 )
 
-func init() { extraConsts = append(extraConsts, memfsBelowFileConsts) }
+func init() { extraConsts = append(extraConsts, memfsBelowFileConsts, memfsRenameMissingConsts) }
 
 // position of the first call <x>.<method>(...) in fn for one of the given method names
 func firstCallPos(fd *ast.FuncDecl, methods ...string) token.Pos {
@@ -161,4 +162,162 @@ func memfsBelowFileConsts(repo string, add func(string, int64, string)) error {
 		"memmap.go: 1 iff Create, Mkdir, Rename and the creating path of OpenFile all walk up to the nearest existing ancestor first and return ENOTDIR when it is a regular file (with the check: [%s]; without: [%s])",
 		strings.Join(with, " "), strings.Join(without, " ")))
 	return nil
+}
+
+// ---- memfs_rename_missing_source_enotdir ----
+// Rename's branch for a MISSING source: the top-level
+//
+//	if _, ok := m.getData()[oldname]; ok { ... } else { <branch> }
+//
+// 0: <branch> = return ... ErrFileNotFound                                   (the code before the repair)
+// 1: <branch> = if d, err := m.lockfreeOpen(filepath.Dir(oldname));
+//	               err == nil && <..d..>.IsDir() && m.<ancestor walk>(newname) { return ... ENOTDIR }
+//	           return ... ErrFileNotFound
+// (the directory of the source is there and the target lies below a regular file: ENOTDIR, as
+// rename(2) answers).  Every other shape is an error: update Model/MemFs.v m_rename.
+
+func flattenAnd(e ast.Expr) []ast.Expr {
+	if p, ok := e.(*ast.ParenExpr); ok {
+		return flattenAnd(p.X)
+	}
+	if b, ok := e.(*ast.BinaryExpr); ok && b.Op == token.LAND {
+		return append(flattenAnd(b.X), flattenAnd(b.Y)...)
+	}
+	return []ast.Expr{e}
+}
+
+func isCallOf(e ast.Expr, sel string) (*ast.CallExpr, bool) {
+	ce, ok := e.(*ast.CallExpr)
+	if !ok {
+		return nil, false
+	}
+	se, ok := ce.Fun.(*ast.SelectorExpr)
+	return ce, ok && se.Sel.Name == sel
+}
+
+func memfsRenameMissingConsts(repo string, add func(string, int64, string)) error {
+	m, err := parseSrc(repo, "memmap.go")
+	if err != nil {
+		return err
+	}
+	fd := m.fn("MemMapFs", "Rename")
+	if fd == nil || fd.Type.Params == nil || len(fd.Type.Params.List) == 0 {
+		return fmt.Errorf("memmap.go: MemMapFs.Rename not found")
+	}
+	var params []string
+	for _, f := range fd.Type.Params.List {
+		for _, n := range f.Names {
+			params = append(params, n.Name)
+		}
+	}
+	if len(params) != 2 {
+		return fmt.Errorf("memmap.go: Rename: two parameters expected")
+	}
+	oldname, newname := params[0], params[1]
+	// the top-level lookup of the source
+	var top *ast.IfStmt
+	for _, st := range fd.Body.List {
+		is, ok := st.(*ast.IfStmt)
+		if !ok || is.Init == nil {
+			continue
+		}
+		as, ok := is.Init.(*ast.AssignStmt)
+		if !ok || len(as.Rhs) != 1 || len(as.Lhs) != 2 {
+			continue
+		}
+		ix, ok := as.Rhs[0].(*ast.IndexExpr)
+		if !ok || !mentionsIdent(ix.Index, oldname) {
+			continue
+		}
+		if _, ok := isCallOf(ix.X, "getData"); !ok {
+			continue
+		}
+		okName, ok := as.Lhs[1].(*ast.Ident)
+		if c, ok2 := is.Cond.(*ast.Ident); !ok || !ok2 || c.Name != okName.Name {
+			continue
+		}
+		if top != nil {
+			return fmt.Errorf("memmap.go: Rename: more than one top-level lookup of the source")
+		}
+		top = is
+	}
+	if top == nil {
+		return fmt.Errorf("memmap.go: Rename: the top-level `if _, ok := m.getData()[%s]; ok` is not found; update Model/MemFs.v m_rename", oldname)
+	}
+	els, ok := top.Else.(*ast.BlockStmt)
+	if !ok || len(els.List) == 0 {
+		return fmt.Errorf("memmap.go: Rename: the branch for a missing source is not a block; update Model/MemFs.v m_rename")
+	}
+	last, ok := els.List[len(els.List)-1].(*ast.ReturnStmt)
+	if !ok || !mentionsIdent(last, "ErrFileNotFound") {
+		return fmt.Errorf("memmap.go: Rename: the branch for a missing source does not end in `return ... ErrFileNotFound`; update Model/MemFs.v m_rename")
+	}
+	switch len(els.List) {
+	case 1:
+		add("memfs_rename_missing_source_enotdir", 0, "memmap.go: Rename of a missing source answers ErrFileNotFound whatever the target (1 = ENOTDIR when the directory of the source is a directory and the target lies below a regular file)")
+		return nil
+	case 2:
+		is, ok := els.List[0].(*ast.IfStmt)
+		bad := func(what string) error {
+			return fmt.Errorf("memmap.go: Rename, missing source: %s; update Model/MemFs.v m_rename", what)
+		}
+		if !ok || is.Else != nil {
+			return bad("the statement before the ErrFileNotFound return is not a plain if")
+		}
+		as, ok := is.Init.(*ast.AssignStmt)
+		if !ok || len(as.Lhs) != 2 || len(as.Rhs) != 1 {
+			return bad("the if has no `d, err := ...` initialiser")
+		}
+		dId, ok1 := as.Lhs[0].(*ast.Ident)
+		eId, ok2 := as.Lhs[1].(*ast.Ident)
+		open, ok3 := isCallOf(as.Rhs[0], "lockfreeOpen")
+		if !ok1 || !ok2 || !ok3 || len(open.Args) != 1 {
+			return bad("the initialiser is not `d, err := m.lockfreeOpen(...)`")
+		}
+		dir, ok := isCallOf(open.Args[0], "Dir")
+		if !ok || len(dir.Args) != 1 {
+			return bad("lockfreeOpen is not given filepath.Dir(" + oldname + ")")
+		}
+		if id, ok := dir.Args[0].(*ast.Ident); !ok || id.Name != oldname {
+			return bad("lockfreeOpen is not given filepath.Dir(" + oldname + ")")
+		}
+		conj := flattenAnd(is.Cond)
+		if len(conj) != 3 {
+			return bad("the condition is not a conjunction of three tests")
+		}
+		var errNil, isDir, walk bool
+		for _, c := range conj {
+			if b, ok := c.(*ast.BinaryExpr); ok && b.Op == token.EQL {
+				x, okx := b.X.(*ast.Ident)
+				y, oky := b.Y.(*ast.Ident)
+				if okx && oky && x.Name == eId.Name && y.Name == "nil" {
+					errNil = true
+				}
+				continue
+			}
+			if ce, ok := isCallOf(c, "IsDir"); ok && len(ce.Args) == 0 && mentionsIdent(ce.Fun, dId.Name) {
+				isDir = true
+				continue
+			}
+			if ce, ok := c.(*ast.CallExpr); ok {
+				if se, ok := ce.Fun.(*ast.SelectorExpr); ok && isAncestorWalk(m.fn("MemMapFs", se.Sel.Name)) && len(ce.Args) == 1 {
+					if id, ok := ce.Args[0].(*ast.Ident); ok && id.Name == newname {
+						walk = true
+					}
+				}
+			}
+		}
+		if !errNil || !isDir || !walk {
+			return bad(fmt.Sprintf("the condition is not `err == nil && <d>.IsDir() && m.<ancestor walk>(%s)` (err==nil:%v IsDir:%v walk:%v)", newname, errNil, isDir, walk))
+		}
+		if len(is.Body.List) != 1 {
+			return bad("the body of the if is not a single return")
+		}
+		if rs, ok := is.Body.List[0].(*ast.ReturnStmt); !ok || !mentionsSelector(rs, "ENOTDIR") {
+			return bad("the body of the if does not return ENOTDIR")
+		}
+		add("memfs_rename_missing_source_enotdir", 1, "memmap.go: Rename of a missing source answers ENOTDIR when the directory of the source is a directory and the target lies below a regular file (0 = ErrFileNotFound whatever the target)")
+		return nil
+	}
+	return fmt.Errorf("memmap.go: Rename: the branch for a missing source has %d statements (1 or 2 expected); update Model/MemFs.v m_rename", len(els.List))
 }
